@@ -88,6 +88,15 @@ def build_scenario(rng, tier):
     ctmc = {"id": "ctmc", "type": "CTMCScale", "x": "clock_rate", "tree_model": "tree"}
     prior = {"id": "prior_kappa", "type": "Distribution", "distribution": "torch.distributions.LogNormal",
              "x": "shape" if "weibull" in site_kind else "root_height", "parameters": {"loc": 0.5, "scale": 1.2}}
+    # a genuine birth-death skyline (2-3 epochs; serial sampling when the dates differ) on the same tree
+    m = rng.choice([2, 3])
+    root_h = tree["root_height"]["tensor"][0]
+    bdsk = {"id": "bdsk", "type": "BDSKModel", "tree_model": "tree",
+            "R": impl.param_json("bdsk_R", [math.exp(rng.uniform(-0.3, 1.0)) for _ in range(m)]),
+            "delta": impl.param_json("bdsk_delta", [math.exp(rng.uniform(-1.0, 0.7)) for _ in range(m)]),
+            "s": impl.param_json("bdsk_s", [rng.uniform(0.1, 0.8) for _ in range(m)]),
+            "rho": impl.param_json("bdsk_rho", [rng.uniform(0.2, 0.9)]),
+            "origin": impl.param_json("bdsk_origin", [root_h + rng.uniform(1.0, 3.0)])}
     joint = {"id": "joint", "type": "JointDistributionModel",
              "distributions": [like, coal, gmrf, ctmc, prior, "tree"]}
     dic = {}
@@ -95,8 +104,17 @@ def build_scenario(rng, tier):
     dens = {"tree_likelihood": dic["like"], "coalescent:" + coal_kind: dic["coalescent"], "gmrf": dic["gmrf"],
             "ctmc_scale": dic["ctmc"], "distribution": dic["prior_kappa"], "height_jacobian": dic["tree"],
             "joint": dic["joint"]}
+    try:
+        process_objects([bdsk], dic)
+        dens["bdsk"] = dic["bdsk"]
+    except Exception:
+        pass
+    # the rescaled pruning recursion in use (as after an underflow, or set by the user)
+    rescale = rng.random() < 0.5
+    if rescale:
+        dic["like"].rescale = True
     desc = dict(n=n, newick=tree["newick"], dates=dates, subst=subst, site=site_kind, clock=clock_kind, coalescent=coal_kind,
-                tip_states=like["use_tip_states"], tree=t, seqs=seqs)
+                tip_states=like["use_tip_states"], tree=t, seqs=seqs, rescale=rescale, bdsk_epochs=m)
     return dens, dic, desc
 
 
@@ -180,9 +198,11 @@ def case_loglik_branch(rng):
     torch = impl.load()
     from torch.autograd.functional import jacobian
     c = c01.gen_case(rng, 10**9, "quick", [])
-    while c["treem"]["kind"] != "unrooted" or c["n"] > 7:
+    while c["treem"]["kind"] != "unrooted" or c["n"] > 7 or c["subst"]["type"] in ("LG", "WAG"):
         c = c01.gen_case(rng, 10**9, "quick", [])
     like = c01.build(c)
+    if rng.random() < 0.5:
+        like.rescale = True        # the rescaled recursion (as after an underflow)
     bl = like.tree_model._branch_lengths
     bl.requires_grad = True
     bl.tensor = bl.tensor
@@ -217,7 +237,8 @@ def case_loglik_branch(rng):
     seqs = C.coq_list(c["seq_order"], lambda q: f"({C.natlit(q)}, {C.coq_list([ord(ch) for ch in c['seqs'][q]], C.natlit)})")
     expr = (f"show_d (loglik_nuc NumD {tip} {taxa} {seqs} {trees.coq_tree(c['tree'])} "
             f"{C.coq_list(out['freqs'], Dc)} {mats} {C.coq_list(out['props'], Dc)})")
-    return dict(kind="loglik_branch", desc=dict(config=f"{c['subst']['type']}/{c['site']['type']}/{c['tip']}", n=n, branch=j),
+    return dict(kind="loglik_branch", desc=dict(config=f"{c['subst']['type']}/{c['site']['type']}/{c['tip']}", n=n, branch=j,
+                                                rescale=bool(like.rescale)),
                 value=out["value"], grad=grad[j], expr=expr)
 
 
@@ -349,7 +370,8 @@ def run(tier, seed, replay=None):
                              f"derivative [{float(d_iv[0])!r}, {float(d_iv[1])!r}] value [{float(v_iv[0])!r}, {float(v_iv[1])!r}]",
                           dict(case=c["desc"], kind=c["kind"], autograd=c["grad"]))
     rep.rule = ("(1) joint models over random time trees (4..6 taxa; JC69/HKY/GTR x site models x strict/simple clock x tip "
-                "partials/states; constant/exponential/skyride/skygrid/piecewise-linear coalescent; GMRF; CTMC scale; a torch "
+                "partials/states, half of them with the rescaled recursion in use; constant/exponential/skyride/skygrid/piecewise-"
+                "linear coalescent; a 2-3 epoch birth-death skyline; GMRF; CTMC scale; a torch "
                 "prior; the node-height Jacobian term; the joint): for every density and every coordinate (<= 3 sampled per "
                 "large parameter) autograd vs Richardson finite differences; (2) autograd vs proved dual-number enclosures for "
                 "the height log-Jacobian w.r.t. ratios/root height, the tree log-likelihood w.r.t. a branch length, Weibull "
